@@ -240,28 +240,53 @@ def exponentText (fmt : Format) (feats : Features) (cursor : Nat) (exp : Int) (e
 def Gen.buf (g : Gen) : List Nat :=
   g.ints ++ g.fracs ++ g.garbage ++ List.replicate (halfSize - (g.fracs.length + g.garbage.length)) 0
 
+/-- `write_float_scientific` after rounding: `digits = &buffer[start..start + digit_count]` -/
+def sciFinish (fmt : Format) (feats : Features) (o : WOpts) (digits : List Nat) (sciExp : Int) : Res Text :=
+  match digits with
+  | [] => .panic                                             -- `digits[0]`
+  | d0 :: rest =>
+    let zeros := rtrimCount 48 rest
+    let body := rest.take (rest.length - zeros)
+    let count := 1 + body.length
+    let exact := minExactDigits count o
+    let hi0 := max 2 (rest.length + 2)
+    let mant : List Nat × Nat :=
+      if ¬ fmt.noExponentWithoutFraction ∧ count = 1 ∧ o.trim then ([d0], hi0)
+      else if exact < 2 then ([d0, o.dp, 48], max hi0 3)
+      else if exact > count then ([d0, o.dp] ++ body ++ List.replicate (exact - count) 48, max hi0 (exact + 1))
+      else ([d0, o.dp] ++ body, hi0)
+    let e := exponentText fmt feats mant.1.length sciExp o.exp
+    .ok ⟨mant.1 ++ e.text, max mant.2 e.hi⟩
+
 /-- `write_float_scientific` -/
 def sciText (fmt : Format) (feats : Features) (o : WOpts) (r : Nat) (g : Gen) (sciExp : Int) : Res Text :=
   let start : Nat := if sciExp ≤ 0 then ((g.ints.length : Int) - sciExp - 1).toNat else 0
   let end_ := min (g.ints.length + g.fracs.length) (start + maxDigitLength + 1)
   (truncateAndRound r o g.buf start end_).bind fun tr =>
-    let digits := (tr.1.drop start).take tr.2.1
-    let sciExp := sciExp + (if tr.2.2 then 1 else 0)
-    match digits with
-    | [] => .panic                                             -- `digits[0]`
-    | d0 :: rest =>
-      let zeros := rtrimCount 48 rest
-      let body := rest.take (rest.length - zeros)
-      let count := 1 + body.length
-      let exact := minExactDigits count o
-      let hi0 := max 2 (digits.length + 1)
-      let (mant, hi1) : List Nat × Nat :=
-        if ¬ fmt.noExponentWithoutFraction ∧ count = 1 ∧ o.trim then ([d0], hi0)
-        else if exact < 2 then ([d0, o.dp, 48], max hi0 3)
-        else if exact > count then ([d0, o.dp] ++ body ++ List.replicate (exact - count) 48, max hi0 (exact + 1))
-        else ([d0, o.dp] ++ body, hi0)
-      let e := exponentText fmt feats mant.length sciExp o.exp
-      .ok ⟨mant ++ e.text, max hi1 e.hi⟩
+    sciFinish fmt feats o ((tr.1.drop start).take tr.2.1) (sciExp + (if tr.2.2 then 1 else 0))
+
+/-- `write_float_nonscientific` after rounding (and after the carry digit was prepended):
+`digits = &buffer[start..start + digit_count]`, `integerLength = initial_cursor - start` -/
+def nonsciFinish (o : WOpts) (digits : List Nat) (integerLength : Nat) : Text :=
+  let count := digits.length
+  let integerCount := min count integerLength
+  let intPart := digits.take integerCount ++ List.replicate (integerLength - integerCount) 48
+  let fractionCount := count - integerLength
+  let fdigits := (digits.drop integerCount).take fractionCount
+  let hi0 := integerLength + 1
+  if fractionCount > 0 then
+    let zeros := rtrimCount 48 fdigits
+    let body := fdigits.take (fractionCount - zeros)
+    let exact := minExactDigits count o
+    let padn := if exact > count then exact - count else 0
+    ⟨intPart ++ [o.dp] ++ body ++ List.replicate padn 48,
+     max (hi0 + fractionCount) (integerLength + 1 + body.length + padn)⟩
+  else if o.trim then ⟨intPart, hi0⟩
+  else
+    let count := count + 1
+    let exact := minExactDigits count o
+    let padn := if exact > count then exact - count else 0
+    ⟨intPart ++ [o.dp, 48] ++ List.replicate padn 48, integerLength + 2 + padn⟩
 
 /-- `write_float_nonscientific` -/
 def nonsciText (o : WOpts) (r : Nat) (g : Gen) : Res Text :=
@@ -270,27 +295,7 @@ def nonsciText (o : WOpts) (r : Nat) (g : Gen) : Res Text :=
     -- `start -= 1; buffer[start] = b'1'`
     if tr.2.2 ∧ g.ints.length ≥ halfSize then .panic else
     let buf := if tr.2.2 then 49 :: tr.1 else tr.1
-    let count := tr.2.1
-    let digits := buf.take count
-    let integerLength := g.ints.length + (if tr.2.2 then 1 else 0)
-    let integerCount := min count integerLength
-    let intPart := digits.take integerCount ++ List.replicate (integerLength - integerCount) 48
-    let fractionCount := count - integerLength
-    let fdigits := (digits.drop integerCount).take fractionCount
-    let hi0 := integerLength + 1
-    if fractionCount > 0 then
-      let zeros := rtrimCount 48 fdigits
-      let body := fdigits.take (fractionCount - zeros)
-      let exact := minExactDigits count o
-      let padn := if exact > count then exact - count else 0
-      .ok ⟨intPart ++ [o.dp] ++ body ++ List.replicate padn 48,
-           max (hi0 + fractionCount) (integerLength + 1 + body.length + padn)⟩
-    else if o.trim then .ok ⟨intPart, hi0⟩
-    else
-      let count := count + 1
-      let exact := minExactDigits count o
-      let padn := if exact > count then exact - count else 0
-      .ok ⟨intPart ++ [o.dp, 48] ++ List.replicate padn 48, integerLength + 2 + padn⟩
+    .ok (nonsciFinish o (buf.take tr.2.1) (g.ints.length + (if tr.2.2 then 1 else 0)))
 
 /-- `sci_exp = initial_cursor - integer_cursor - zero_count - 1` -/
 def sciExpOf (g : Gen) : Int :=
